@@ -306,6 +306,32 @@ def special_shard(desc):
                 cases.append(c)
                 plan.append((c, typ, [(tc.obs[-1][0], 0, len(xs))], xs, ws, ys, 'lopsided'))
                 res.count('lopsided_histories')
+    for typ in desc.get('tworuns', []):
+        # two constant runs whose values are 1-3 ulps apart at a large offset, merged exactly at the boundary: the merged
+        # mean can round an ulp outside [a, b], which turns "algebraically equal" cross terms negative
+        for rep in range(desc.get('tworuns_reps', 6)):
+            a = rng.choice([-1, 1]) * rng.choice([1e15 + 0.125, 0.1, 3.3e8, 1e-7, 7.77e20]) * rng.uniform(1, 2)
+            b = a
+            for _ in range(rng.randint(1, 3)):
+                b = math.nextafter(b, math.inf)
+            ka, kb = rng.randint(1, 7), rng.randint(1, 7)
+            xs = [a] * ka + [b] * kb
+            ws = ys = None
+            arity, flat = 1, xs
+            if typ in ('WeightedMean', 'WeightedMeanWithError'):
+                arity, ws = 2, [1.0] * len(xs)
+                flat = [v for x in xs for v in (x, 1.0)]
+            elif typ == 'Covariance':
+                arity, ys = 2, list(reversed(xs))
+                flat = [v for x, y in zip(xs, ys) for v in (x, y)]
+            for orient in (0, 1):
+                c = Case('%s-%d' % (desc['name'], k), typ, meta={'kind': 'tworuns', 'sizes': [ka, kb], 'tree': '(LL%d)' % orient})
+                k += 1
+                tc = gen.TreeCompiler(c, gen.chunks_of(flat, (ka, kb), arity), arity=arity)
+                tc.build((0, 1, orient))
+                cases.append(c)
+                plan.append((c, typ, [(tc.obs[-1][0], 0, len(xs))], xs, ws, ys, 'tworuns'))
+                res.count('tworuns_histories')
     for typ, kk in desc['doubling']:
         base = [float(rng.randint(-9, 9)) + 0.5 for _ in range(rng.randint(2, 4))]
         if len(set(base)) < 2:
@@ -390,11 +416,12 @@ def run(tier, seed):
             dbl = [(t, kk) for t in ('Variance', 'Skewness', 'Kurtosis', 'M6', 'WeightedMeanWithError', 'Covariance') for kk in (31, 33, 40, 60)]
             nsh2 = 8
             descs = [{'name': 'x%s%d' % (variant[0], s), 'variant': variant, 'binary': binary, 'lopsided': lop[s::nsh2],
-                      'doubling': dbl[s::nsh2], 'seed': seed * 77 + s} for s in range(nsh2)]
+                      'doubling': dbl[s::nsh2], 'tworuns': ['Variance', 'Skewness', 'Kurtosis', 'M6', 'WeightedMeanWithError', 'Covariance', 'Mean'][s::nsh2],
+                      'tworuns_reps': 12 if tier == 'quick' else 200, 'seed': seed * 77 + s} for s in range(nsh2)]
             total.merge(common.run_shards(special_shard, descs))
     except common.Inconclusive as e:
         total.inconclusive.append(str(e))
-    need = {'lopsided_histories': 20, 'doubling_histories': 20, 'sign_checks': 20000, 'range_checks': 20000, 'merge_histories': 1000, 'effective_len_checks': 500,
+    need = {'tworuns_histories': 100, 'lopsided_histories': 20, 'doubling_histories': 20, 'sign_checks': 20000, 'range_checks': 20000, 'merge_histories': 1000, 'effective_len_checks': 500,
             'weighted_range_checks': 500, 'histogram_variance_checks': 2000}
     for k in ('offset15', 'ulp', 'denormal', 'mixed', 'constperturb', 'big', 'standard'):
         need['kind_%s' % k] = 50
